@@ -12,7 +12,8 @@ type GCrypto struct {
 	Peer     string
 	ACL      *GACL
 	TSName   string
-	TSDef    string
+	TSDef    string // ikev1: parameters of the transform-set; ikev2: sub-commands of the proposal joined by ';'
+	IKEv2    bool
 	PFS      string // "", "group2", "group14"
 	Lifetime string // seconds
 }
@@ -114,7 +115,16 @@ func (v *GVPN) Text() string {
 		printACL(&b, e.ACL, false)
 		if !tsSeen[e.TSName] {
 			tsSeen[e.TSName] = true
-			fmt.Fprintf(&b, "crypto ipsec ikev1 transform-set %s %s\n", e.TSName, e.TSDef)
+			if e.IKEv2 {
+				fmt.Fprintf(&b, "crypto ipsec ikev2 ipsec-proposal %s\n", e.TSName)
+				for _, l := range strings.Split(e.TSDef, ";") {
+					if l != "" {
+						b.WriteString(" " + l + "\n")
+					}
+				}
+			} else {
+				fmt.Fprintf(&b, "crypto ipsec ikev1 transform-set %s %s\n", e.TSName, e.TSDef)
+			}
 		}
 		p := fmt.Sprintf("crypto map %s %d ", v.MapName, e.Seq)
 		b.WriteString(p + "match address " + e.ACL.Name + "\n")
@@ -122,7 +132,11 @@ func (v *GVPN) Text() string {
 			b.WriteString(p + "set pfs " + e.PFS + "\n")
 		}
 		b.WriteString(p + "set peer " + e.Peer + "\n")
-		b.WriteString(p + "set ikev1 transform-set " + e.TSName + "\n")
+		if e.IKEv2 {
+			b.WriteString(p + "set ikev2 ipsec-proposal " + e.TSName + "\n")
+		} else {
+			b.WriteString(p + "set ikev1 transform-set " + e.TSName + "\n")
+		}
 		if e.Lifetime != "" {
 			b.WriteString(p + "set security-association lifetime seconds " + e.Lifetime + "\n")
 		}
@@ -210,6 +224,12 @@ func (g *Gen) TargetVPN(intf string) *GVPN {
 			ACL:    &GACL{fmt.Sprintf("crypto-%s-%d", intf, seq), []string{g.plainACE()}},
 			TSName: []string{"Trans1", "Trans2"}[g.Rng.Intn(2)]}
 		e.TSDef = map[string]string{"Trans1": "esp-3des esp-md5-hmac", "Trans2": "esp-aes-256 esp-sha-hmac"}[e.TSName]
+		if g.Rng.Intn(3) == 0 {
+			e.IKEv2 = true
+			e.TSName = []string{"Prop1", "Prop2"}[g.Rng.Intn(2)]
+			e.TSDef = map[string]string{"Prop1": "protocol esp encryption aes-256;protocol esp integrity sha-1",
+				"Prop2": "protocol esp encryption aes;protocol esp integrity sha-256"}[e.TSName]
+		}
 		if g.Rng.Intn(2) == 0 {
 			e.ACL.Lines = append(e.ACL.Lines, g.plainACE())
 		}
@@ -267,7 +287,7 @@ func (g *Gen) EditVPN(v *GVPN) string {
 	if v == nil {
 		return ""
 	}
-	switch g.Rng.Intn(14) {
+	switch g.Rng.Intn(15) {
 	case 0: // generated names
 		sfx := fmt.Sprintf("-DRC-%d", g.Rng.Intn(2))
 		ren := func(a *GACL) {
@@ -300,6 +320,32 @@ func (g *Gen) EditVPN(v *GVPN) string {
 			}
 		}
 		return "vpn-names-generated"
+	case 14: // ikev2 proposal on device has other or fewer sub-commands
+		var cand []*GCrypto
+		for _, e := range v.Entries {
+			if e.IKEv2 {
+				cand = append(cand, e)
+			}
+		}
+		if len(cand) > 0 {
+			e := cand[g.Rng.Intn(len(cand))]
+			l := strings.Split(e.TSDef, ";")
+			def := ""
+			switch g.Rng.Intn(3) {
+			case 0:
+				def = l[0] // incomplete, like the left-over of an interrupted run
+			case 1:
+				def = l[0] + ";protocol esp integrity md5"
+			case 2:
+				def = "protocol esp encryption 3des;" + l[len(l)-1]
+			}
+			for _, x := range v.Entries {
+				if x.TSName == e.TSName {
+					x.TSDef = def
+				}
+			}
+			return "crypto-proposal-changed"
+		}
 	case 1:
 		if len(v.Entries) > 0 {
 			e := v.Entries[g.Rng.Intn(len(v.Entries))]
